@@ -82,7 +82,7 @@ Section Run.
              b2z (eqb (numeq_t tol tol) (get p i) (get p j))])
     | OFillNp i rows =>
         let '(a', r) := fillnp (get p i) rows in
-        (set p i a', [oc r])
+        (set p i a', oc r :: snap a')      (* the implementation is observed up to empty sparse bins *)
     | OSnapP i => (p, snap (prune (get p i)))
     | OClone i => let c := get p i in (p ++ [c], 0 :: snap c)
     | OView i lo hi xs => (p, tok_views (views_of (get p i) lo hi xs))
